@@ -40,9 +40,9 @@ from . import projgen
 
 KINDS = ('hdr', 'dep', 'gen', 'chain', 'tool', 'link', 'script', 'ctlib', 'run', 'conf', 'subproj')
 # rough number of build statements a block contributes (used to keep graphs explorable)
-WEIGHT = {'hdr': 6, 'dep': 6, 'gen': 6, 'chain': 7, 'tool': 12, 'link': 14, 'script': 6, 'ctlib': 7, 'run': 6,
-          'conf': 4, 'subproj': 6}
-VARIANTS = {'hdr': 4, 'dep': 2, 'gen': 2, 'chain': 2, 'tool': 2, 'link': 2, 'script': 1, 'ctlib': 1, 'run': 1,
+WEIGHT = {'hdr': 8, 'dep': 8, 'gen': 11, 'chain': 8, 'tool': 15, 'link': 20, 'script': 7, 'ctlib': 7, 'run': 7,
+          'conf': 7, 'subproj': 7}
+VARIANTS = {'hdr': 5, 'dep': 3, 'gen': 2, 'chain': 2, 'tool': 3, 'link': 2, 'script': 1, 'ctlib': 1, 'run': 1,
             'conf': 1, 'subproj': 2}
 
 GEN_SH = r"""#!/bin/sh
@@ -158,6 +158,11 @@ def _block(w: _W, b: T.Dict[str, T.Any]) -> None:
         elif v == 2:    # a static library owns the generated source, the executable only lists the header
             L(f"{p}_lib = static_library('{p}_lib', '{p}_util.c', {p}_ct)")
             L(f"{p}_exe = executable('{p}_exe', '{p}_main.c', {p}_ct[1], link_with: {p}_lib)")
+        elif v == 4:    # a precompiled header includes the generated header
+            w.file(d, f'pch/{p}_pch.h', f'#include "../{p}_x.h"\n#include <stddef.h>\n')
+            F(f'{p}_x.h', f'/* plain header next to the pch */\n#define {P}_X 1\n')
+            F(f'{p}_pch_user.c', _fn_c(f'{p}_pch_user', [f'{p}_hdr.h'], expr=f'{P}_HDR_VALUE - 1'))
+            L(f"{p}_exe = executable('{p}_exe', '{p}_main.c', '{p}_util.c', '{p}_pch_user.c', {p}_ct, c_pch: 'pch/{p}_pch.h')")
         else:           # header and source from two custom targets, the second reads the first (target in command)
             F(f'{p}_2.in', f'seed2 {p}\n')
             L(f"{p}_ct2 = custom_target('{p}_gen2', input: '{p}_2.in', output: '{p}_more.h', "
@@ -173,12 +178,16 @@ def _block(w: _W, b: T.Dict[str, T.Any]) -> None:
         w.file(dd, f'{p}.in', f'seed {p}\n')
         w.line(dd, f"{p}_hdr = custom_target('{p}_hdr', input: '{p}.in', output: '{p}_api.h', command: {GEN})")
         w.file(dd, f'{p}_lib.c', _fn_c(f'{p}_lib_fn', [f'{p}_api.h'], expr=f'{P}_API_VALUE - 1'))
-        libfn = 'static_library' if v == 0 else 'library'
+        libfn = 'library' if v == 1 else 'static_library'
         w.line(dd, f"{p}_lib = {libfn}('{p}_lib', '{p}_lib.c', {p}_hdr)")
         w.line(dd, f"{p}_dep = declare_dependency(sources: {p}_hdr, link_with: {p}_lib, include_directories: include_directories('.'))")
         F(f'{p}_main.c', _main_c([f'{p}_api.h'], [f'{p}_lib_fn'], f'{P}_API_VALUE - 1 + {p}_lib_fn()'))
         F(f'{p}_other.c', _fn_c(f'{p}_other', [f'{p}_api.h'], expr=f'{P}_API_VALUE'))
-        L(f"{p}_exe = executable('{p}_exe', '{p}_main.c', '{p}_other.c', dependencies: {p}_dep)")
+        if v == 2:
+            L(f"{p}_exe = executable('{p}_exe', '{p}_main.c', '{p}_other.c', "
+              f"dependencies: {p}_dep.partial_dependency(sources: true, includes: true, links: true))")
+        else:
+            L(f"{p}_exe = executable('{p}_exe', '{p}_main.c', '{p}_other.c', dependencies: {p}_dep)")
 
     elif kind == 'gen':
         F(f'{p}_one.in', f'one {p}\n')
@@ -194,6 +203,9 @@ def _block(w: _W, b: T.Dict[str, T.Any]) -> None:
                                  f'{P}_ONE_VALUE - {P}_TWO_VALUE + {p}_one_fn() + {p}_two_fn()'))
         F(f'{p}_side.c', _fn_c(f'{p}_side', [f'{p}_two.h'], expr=f'{P}_TWO_VALUE'))
         L(f"{p}_exe = executable('{p}_exe', '{p}_main.c', '{p}_side.c', {p}_g.process('{p}_one.in', '{p}_two.in'))")
+        F(f'{p}_three.in', f'three {p}\n')
+        L(f"{p}_ctg = custom_target('{p}_ctg', input: {p}_g.process('{p}_three.in'), output: '{p}_ctg.txt', "
+          f"command: [gen, '-r', '@INPUT1@', '@INPUT0@', '@OUTPUT@'], build_by_default: true)")
 
     elif kind == 'chain':
         for s in 'acd':
@@ -208,15 +220,19 @@ def _block(w: _W, b: T.Dict[str, T.Any]) -> None:
         F(f'{p}_main.c', _main_c([f'{p}_c.h'], [f'{p}_c_fn'], f'{P}_C_VALUE - 1 + {p}_c_fn()'))
         if v == 0:
             L(f"{p}_exe = executable('{p}_exe', '{p}_main.c', {p}_c)")
-        else:
-            L(f"{p}_exe = executable('{p}_exe', '{p}_main.c', {p}_c[0], {p}_c[1])")
+        else:   # indexed outputs, plus a generator() whose input is a custom target output
+            L(f"{p}_gx = generator(gen, output: '@BASENAME@_x.c', arguments: ['@INPUT@', '@OUTPUT@'])")
+            L(f"{p}_exe = executable('{p}_exe', '{p}_main.c', {p}_c[0], {p}_c[1], {p}_gx.process({p}_b))")
 
     elif kind == 'tool':
         F(f'{p}_tlib.c', _fn_c(f'{p}_tlib_value', expr='7'))
-        libfn = 'shared_library' if v == 0 else 'static_library'
+        libfn = 'static_library' if v == 1 else 'shared_library'
         L(f"{p}_tlib = {libfn}('{p}_tlib', '{p}_tlib.c')")
         F(f'{p}_tool.c', TOOL_C % {'p': p})
         L(f"{p}_tool = executable('{p}_tool', '{p}_tool.c', link_with: {p}_tlib)")
+        if v == 2:      # the tool is reached through find_program() (overridden by the built executable)
+            L(f"meson.override_find_program('{p}_mytool', {p}_tool)")
+            L(f"{p}_tool = find_program('{p}_mytool')")
         F(f'{p}.in', f'seed {p}\n')
         F(f'{p}_x.in', f'x {p}\n')
         F(f'{p}_y.in', f'y {p}\n')
@@ -224,6 +240,7 @@ def _block(w: _W, b: T.Dict[str, T.Any]) -> None:
         L(f"{p}_tg = generator({p}_tool, output: '@BASENAME@_g.c', arguments: ['@INPUT@', '@OUTPUT@'])")
         L(f"{p}_cap = custom_target('{p}_cap', output: '{p}_cap.txt', command: [{p}_tool], capture: true, build_by_default: true)")
         L(f"{p}_arg = custom_target('{p}_arg', input: '{p}_y.in', output: '{p}_arg.h', command: [gen, '-x', {p}_tool, '@INPUT@', '@OUTPUT@'])")
+        L(f"{p}_copy = custom_target('{p}_copy', input: {p}_tool, output: '{p}_tool.copy', command: [gen, '@INPUT@', '@OUTPUT@'], build_by_default: true)")
         F(f'{p}_main.c', _main_c([f'{p}_arg.h'], [f'{p}_made_fn', f'{p}_x_g_fn'], f'{P}_ARG_VALUE - 1 + {p}_made_fn() + {p}_x_g_fn()'))
         L(f"{p}_exe = executable('{p}_exe', '{p}_main.c', {p}_out, {p}_tg.process('{p}_x.in'), {p}_arg)")
 
@@ -233,7 +250,7 @@ def _block(w: _W, b: T.Dict[str, T.Any]) -> None:
         F(f'{p}_sh.c', _fn_c(f'{p}_sh', calls=[f'{p}_s1']))
         F(f'{p}_both.c', _fn_c(f'{p}_both'))
         F(f'{p}_x.c', _fn_c(f'{p}_x'))
-        F(f'{p}_main.c', _main_c([], [f'{p}_sh', f'{p}_both', f'{p}_x'], f'{p}_sh() + {p}_both() + {p}_x()'))
+        F(f'{p}_main.c', _main_c([], [f'{p}_sh', f'{p}_both', f'{p}_x', f'{p}_s2'], f'{p}_sh() + {p}_both() + {p}_x() + {p}_s2()'))
         L(f"{p}_s0 = static_library('{p}_s0', '{p}_s0.c')")
         L(f"{p}_s1 = static_library('{p}_s1', '{p}_s1.c', link_with: {p}_s0)")
         if v == 0:
@@ -242,7 +259,11 @@ def _block(w: _W, b: T.Dict[str, T.Any]) -> None:
             L(f"{p}_sh = shared_library('{p}_sh', '{p}_sh.c', link_with: {p}_s1)")
         L(f"{p}_both = both_libraries('{p}_both', '{p}_both.c')")
         L(f"{p}_xl = static_library('{p}_xl', '{p}_x.c', build_by_default: false)")
-        L(f"{p}_exe = executable('{p}_exe', '{p}_main.c', link_with: [{p}_sh, {p}_both], objects: {p}_xl.extract_objects('{p}_x.c'))")
+        F(f'{p}_s2.c', _fn_c(f'{p}_s2', calls=[f'{p}_w']))
+        F(f'{p}_w.c', _fn_c(f'{p}_w'))
+        L(f"{p}_w = static_library('{p}_w', '{p}_w.c')")
+        L(f"{p}_s2 = static_library('{p}_s2', '{p}_s2.c', link_whole: {p}_w)")
+        L(f"{p}_exe = executable('{p}_exe', '{p}_main.c', link_with: [{p}_sh, {p}_both, {p}_s2], objects: {p}_xl.extract_objects('{p}_x.c'))")
 
     elif kind == 'script':
         F(f'{p}.in', f'seed {p}\n')
@@ -278,8 +299,14 @@ def _block(w: _W, b: T.Dict[str, T.Any]) -> None:
         L(f"{p}_cfg = configure_file(input: '{p}_cfg.h.in', output: '{p}_cfg.h', configuration: {{'V': 1}})")
         L(f"{p}_made = configure_file(output: '{p}_made.h', command: [gen, files('{p}.in'), '@OUTPUT@'])")
         L(f"{p}_feed = custom_target('{p}_feed', input: {p}_cfg, output: '{p}_feed.txt', command: [catprog], feed: true, capture: true, build_by_default: true)")
-        F(f'{p}_main.c', _main_c([f'{p}_cfg.h', f'{p}_made.h'], [], f'{P}_CFG_VALUE - {P}_MADE_VALUE'))
-        L(f"{p}_exe = executable('{p}_exe', '{p}_main.c')")
+        F(f'{p}_ver.txt', 'v1\n')
+        F(f'{p}_vcs.h.in', f'#define {P}_VCS "@VCS_TAG@"\n')
+        F(f'{p}_copied.h.in', f'#define {P}_COPIED 1\n')
+        L(f"{p}_vcs = vcs_tag(command: [catprog, files('{p}_ver.txt')], input: '{p}_vcs.h.in', output: '{p}_vcs.h', fallback: 'none')")
+        L(f"{p}_copied = import('fs').copyfile('{p}_copied.h.in', '{p}_copied.h')")
+        F(f'{p}_main.c', _main_c([f'{p}_cfg.h', f'{p}_made.h', f'{p}_vcs.h', f'{p}_copied.h'], [],
+                                 f'{P}_CFG_VALUE - {P}_MADE_VALUE + {P}_COPIED - 1 + (int)sizeof({P}_VCS) - 3'))
+        L(f"{p}_exe = executable('{p}_exe', '{p}_main.c', {p}_vcs, {p}_copied)")
 
     elif kind == 'subproj':
         sp = f'{p}sp'
